@@ -86,16 +86,4 @@ theorem id_on_root_full_fails :
     (wLoad wRootDoc).index = [([114], [47, 99, 111, 110, 102, 105, 103])] ∧ (serve wAll (wGet wIdR) (wLoad wRootDoc)).2 = .redirect := by
   decide
 
-/-- `{"o":{"@id":1000000}}` -/
-def wNumDoc : Json := .obj [([111], .obj [(idKey, .num [49, 48, 48, 48, 48, 48, 48])])]
-def wIdNum : Bytes := [47, 105, 100, 47, 49, 48, 48, 48, 48, 48, 48]     -- "/id/1000000"
-def wIdSci : Bytes := [47, 105, 100, 47, 49, 101, 43, 48, 54]     -- "/id/1e+06"
-
-/-- **a numeric @id is not reachable under its JSON spelling** from 1e6 upward: the index key
-    is `fmt.Sprintf("%v", 1e6)` = `1e+06`. -/
-theorem id_number_spelling_full_fails :
-    (serve wAll (wGet wIdNum) (wLoad wNumDoc)).2 = .fail .idUnknown ∧
-    (serve wAll (wGet wIdSci) (wLoad wNumDoc)).2 = .okGet (some (.obj [(idKey, .num [49, 48, 48, 48, 48, 48, 48])])) [47, 99, 111, 110, 102, 105, 103, 47, 111] := by
-  decide
-
 end CaddyModel.C12
